@@ -252,3 +252,89 @@ def run_stream(chk, model, bres, R, n, stream='defaults'):
                 chk.fail(f'{stream}:assigned-element-limit-replaced', case, f"element_limit {o['limit']} assigned, {o['out_limit']} after")
             if o['long_name'] and o['out_long_name'] != o['long_name']:
                 chk.fail(f'{stream}:assigned-long-name-replaced', case, f"long_name {o['long_name']!r} assigned, {o['out_long_name']!r} after")
+
+
+def sequence_stream(chk, model, bres, R, n, stream='dimension-sequences'):
+    """successive `_run_checks_and_set_defaults` of ONE parameter / computation / calibration measurement, the values
+    (and sometimes the user's own dimension) changing in between, some checks refused: outcome and dimension held after
+    every step vs `paramCheckSt` / `calMeasCheckSt` threaded through `DimState` (Model/Defaults.lean); oracle: a step
+    behaves as it does on a fresh item that was given the user's latest dimension assignment and the current values"""
+    if not bres.ok:
+        return
+    reqs, metas = [], []
+    for i in range(n):
+        kind = R.choice(['param', 'comp', 'calmeas'])
+        nsteps = R.choice([2, 2, 3, 4])
+        dim0 = R.choice([None, None, None, [2], [3]])
+        names = ['maximum_deviation', 'standard_deviation', 'standard']
+        if kind == 'calmeas':
+            item = T.CalibrationMeasurementItem('C', parent=T.CalibrationMeasurementSet(), origin_reference=1)
+        else:
+            cls = (T.ParameterSet if kind == 'param' else T.ComputationSet)
+            item = cls.item_type('P', parent=cls(), origin_reference=1)
+        nz = R.choice([1, 2])
+        zs = T.ZoneSet()
+        zones = [T.ZoneItem(f'Z{k}', parent=zs, origin_reference=1) for k in range(nz)]
+        if kind != 'calmeas':
+            item.zones.value = zones
+        if dim0 is not None:
+            item.dimension.value = dim0
+        toks = ['dflt', 'seq', dim_tok(dim0)]
+        impl, steps_desc, fresh_ok = [], [], True
+        user_dim = dim0
+        for k in range(nsteps):
+            asg = '='
+            if R.random() < 0.15:
+                user_dim = R.choice([[2], [3], [2, 2]])
+                item.dimension.value = user_dim
+                asg = dim_tok(user_dim)
+            shape = [nz] + R.choice([[], [2], [3], [2, 2]])
+            if kind == 'calmeas':
+                vals = [gen_nested(R, shape if R.random() < 0.8 else [nz] + R.choice([[2], [3]])) for _ in names]
+                for nm, v in zip(names, vals):
+                    getattr(item, nm).value = v
+                held = [getattr(item, nm).value for nm in names]
+                st, err = call(item._run_checks_and_set_defaults)
+                vt = []
+                for h in held:
+                    vt += req_tokens(h)
+                toks += ['M', asg, str(len(names))] + vt + ['~']
+                steps_desc.append({'assign_dimension': None if asg == '=' else user_dim, 'values': vals})
+                # fresh item: the user's latest assignment and the current values
+                f = T.CalibrationMeasurementItem('C', parent=T.CalibrationMeasurementSet(), origin_reference=1)
+                if user_dim is not None:
+                    f.dimension.value = user_dim
+                for nm, v in zip(names, vals):
+                    getattr(f, nm).value = v
+            else:
+                v = gen_nested(R, shape)
+                item.values.value = v
+                held = item.values.value
+                st, err = call(item._run_checks_and_set_defaults)
+                toks += ['P', asg, '1' if kind == 'param' else '0'] + req_tokens(held) + [str(nz), '~']
+                steps_desc.append({'assign_dimension': None if asg == '=' else user_dim, 'values': v})
+                cls = (T.ParameterSet if kind == 'param' else T.ComputationSet)
+                f = cls.item_type('P', parent=cls(), origin_reference=1)
+                f.zones.value = zones
+                if user_dim is not None:
+                    f.dimension.value = user_dim
+                f.values.value = v
+            stf, errf = call(f._run_checks_and_set_defaults)
+            impl.append(('ok ' if st == 'ok' else f'err:{err} ') + dim_tok(item.dimension.value))
+            if (st, None if st == 'ok' else err) != (stf, None if stf == 'ok' else errf) or \
+                    (st == 'ok' and item.dimension.value != f.dimension.value):
+                fresh_ok = False
+                chk.fail(f'{stream}:differs-from-fresh-item',
+                         {'object': kind, 'zones': nz, 'dimension_assigned_at_creation': dim0, 'steps': steps_desc},
+                         f'step {k + 1}: {st} {err if st != "ok" else ""} dimension {item.dimension.value}; a fresh item with the '
+                         f'same assignment and values: {stf} {errf if stf != "ok" else ""} dimension {f.dimension.value}')
+                break
+        if not fresh_ok:
+            continue
+        reqs.append(' '.join(toks))
+        metas.append(({'object': kind, 'zones': nz, 'dimension_assigned_at_creation': dim0, 'steps': steps_desc}, ';'.join(impl)))
+    for (case, impl), req, rep in zip(metas, reqs, model.ask(reqs)):
+        chk.case(stream, nontrivial_key=hash(req), sample={'request': req[:200], 'impl': impl})
+        chk.count(f"{stream}:{case['object']}:{'refusals' if 'err' in impl else 'all-ok'}")
+        if rep != impl:
+            chk.disagree(stream, dict(case, request=req[:600]), impl, rep)
